@@ -232,26 +232,26 @@ Definition frac_part (r1 : list N) : bool * list N * list N :=
 
 Definition num_ty (ti tf : Z) (fl : bool) : Z := if fl then tf else ti.
 
-Lemma exp_digits_loop : forall (s : list N) (fuel : nat) (fl : bool) (r start tf ti : Z) (buf : list Z) (errs : list go_err),
+Lemma exp_digits_loop : forall (s : list N) (fuel : nat) (fl : bool) (tf ti : Z) (buf : list Z) (errs : list go_err),
   (length s < fuel)%nat ->
-  obs_of_gen (gen_lexing_LexNumber_loop2 fuel fl r start tf ti buf errs (zs s)) =
+  obs_of_gen (gen_lexing_LexNumber_loop2 fuel fl tf ti buf errs (zs s)) =
   let '(d3, r3) := span is_digit s in
   OTok (num_ty ti tf fl) (buf ++ zs d3) (map ecode_of errs) (zs r3).
 Proof.
-  induction s as [|c s IH]; intros fuel fl r start tf ti buf errs Hf; (destruct fuel as [|fuel]; [cbn in Hf; lia|]);
+  induction s as [|c s IH]; intros fuel fl tf ti buf errs Hf; (destruct fuel as [|fuel]; [cbn in Hf; lia|]);
     cbn [gen_lexing_LexNumber_loop2 span]; lex_simpl; rune_simpl; unfold num_ty; go_cases; loop_leaf IH.
 Qed.
 
 Ltac fuel_ok := rewrite ?zs_length; cbn [length tl] in *; lia.
 
-Lemma frac_digits_loop : forall (s : list N) (fuel : nat) (fl : bool) (r start tf ti : Z) (buf : list Z) (errs : list go_err),
+Lemma frac_digits_loop : forall (s : list N) (fuel : nat) (fl : bool) (tf ti : Z) (buf : list Z) (errs : list go_err),
   (length s < fuel)%nat ->
-  obs_of_gen (gen_lexing_LexNumber_loop3 fuel fl r start tf ti buf errs (zs s)) =
+  obs_of_gen (gen_lexing_LexNumber_loop3 fuel fl tf ti buf errs (zs s)) =
   let '(d2, r2) := span is_digit s in
   let '(fl2, ex, r3) := exp_part r2 in
   OTok (num_ty ti tf (fl || fl2)) (buf ++ zs d2 ++ zs ex) (map ecode_of errs) (zs r3).
 Proof.
-  induction s as [|c s IH]; intros fuel fl r start tf ti buf errs Hf; (destruct fuel as [|fuel]; [cbn in Hf; lia|]);
+  induction s as [|c s IH]; intros fuel fl tf ti buf errs Hf; (destruct fuel as [|fuel]; [cbn in Hf; lia|]);
     cbn [gen_lexing_LexNumber_loop3 span exp_part]; lex_simpl; rune_simpl.
   - cbn [Z.eqb orb obs_of_gen]. unfold num_ty. rewrite orb_false_r. cbn [zs map app]. rewrite app_nil_r. go_cases; reflexivity.
   - destruct (is_digit c) eqn:Ed.
@@ -281,15 +281,15 @@ Ltac num_exit :=
   destruct_lets; cbn [obs_of_gen]; rewrite <- ?app_assoc, ?app_nil_r, ?orb_true_r, ?orb_false_r;
   subst; unfold zs in *; cbn [app map]; rewrite <- ?app_assoc, ?app_nil_r, ?map_app; cbn [app map orb]; go_leaf.
 
-Lemma int_digits_loop : forall (s : list N) (fuel : nat) (fl : bool) (r start tf ti : Z) (buf : list Z) (errs : list go_err),
+Lemma int_digits_loop : forall (s : list N) (fuel : nat) (fl : bool) (tf ti : Z) (buf : list Z) (errs : list go_err),
   (length s < fuel)%nat ->
-  obs_of_gen (gen_lexing_LexNumber_loop4 fuel fl r start tf ti buf errs (zs s)) =
+  obs_of_gen (gen_lexing_LexNumber_loop4 fuel fl tf ti buf errs (zs s)) =
   let '(d1, r1) := span is_digit s in
   let '(fl1, frac, r2) := frac_part r1 in
   let '(fl2, ex, r3) := exp_part r2 in
   OTok (num_ty ti tf (fl || fl1 || fl2)) (buf ++ zs d1 ++ zs frac ++ zs ex) (map ecode_of errs) (zs r3).
 Proof.
-  induction s as [|c s IH]; intros fuel fl r start tf ti buf errs Hf; (destruct fuel as [|fuel]; [cbn in Hf; lia|]);
+  induction s as [|c s IH]; intros fuel fl tf ti buf errs Hf; (destruct fuel as [|fuel]; [cbn in Hf; lia|]);
     cbn [gen_lexing_LexNumber_loop4 span]; lex_simpl; rune_simpl.
   - cbn [Z.eqb orb obs_of_gen frac_part exp_part]. unfold num_ty. rewrite !orb_false_r. cbn [zs map app]. rewrite app_nil_r.
     go_cases; reflexivity.
@@ -299,13 +299,13 @@ Proof.
       destruct s2 as [|c3 s3]; num_exit.
 Qed.
 
-Lemma hex_digits_loop : forall (s : list N) (fuel : nat) (fl : bool) (r start tf ti : Z) (buf : list Z) (errs : list go_err),
+Lemma hex_digits_loop : forall (s : list N) (fuel : nat) (fl : bool) (tf ti : Z) (buf : list Z) (errs : list go_err),
   (length s < fuel)%nat ->
-  obs_of_gen (gen_lexing_LexNumber_loop1 fuel fl r start tf ti buf errs (zs s)) =
+  obs_of_gen (gen_lexing_LexNumber_loop1 fuel fl tf ti buf errs (zs s)) =
   let '(h, r3) := span is_hex_digit s in
   OTok (num_ty ti tf fl) (buf ++ zs h) (map ecode_of errs) (zs r3).
 Proof.
-  induction s as [|c s IH]; intros fuel fl r start tf ti buf errs Hf; (destruct fuel as [|fuel]; [cbn in Hf; lia|]);
+  induction s as [|c s IH]; intros fuel fl tf ti buf errs Hf; (destruct fuel as [|fuel]; [cbn in Hf; lia|]);
     cbn [gen_lexing_LexNumber_loop1 span]; lex_simpl; rune_simpl; unfold num_ty; go_cases; loop_leaf IH.
 Qed.
 
@@ -436,15 +436,15 @@ Proof.
   rewrite ?Zc_leb, ?Zc_leb'. go_cases; go_arith; lia.
 Qed.
 
-Lemma esc_loop : forall (k : nat) (s : list N) (fuel : nat) (i n rr : Z) (base max v : N) (buf : list Z) (errs : list go_err),
+Lemma esc_loop : forall (k : nat) (s : list N) (fuel : nat) (i n : Z) (base max v : N) (buf : list Z) (errs : list go_err),
   n - i = Z.of_nat k -> 0 <= i -> n <= 16 -> (2 <= base <= 16)%N -> ((v + 1) * base ^ N.of_nat k <= 4294967296)%N ->
   (k < fuel)%nat ->
   let '(p, s', e) := dig_run k base max v s in
   exists (b : bool) (EE : list go_err),
-    gen_lexing_lexEscape_loop1 fuel i (Z.of_N base) (Z.of_N max) n rr (Z.of_N v) 34 buf errs (zs s)
+    gen_lexing_lexEscape_loop1 fuel i (Z.of_N base) (Z.of_N max) n (Z.of_N v) buf errs (zs s)
     = GoOk (b, zs s', buf ++ zs p, errs ++ EE) /\ map ecode_of EE = e.
 Proof.
-  induction k as [|k IH]; intros s fuel i n rr base max v buf errs Hk Hi Hn Hb Hv Hf;
+  induction k as [|k IH]; intros s fuel i n base max v buf errs Hk Hi Hn Hb Hv Hf;
     (destruct fuel as [|fuel]; [lia|]); cbn [dig_run gen_lexing_lexEscape_loop1].
   - replace (i <? n) with false by lia. unfold code_point_errs, in_range.
     rewrite app_nil_r.
@@ -475,7 +475,7 @@ Proof.
         unfold wrap_u32 at 2. rewrite <- N2Z.inj_mul, Z.mod_small by lia.
         unfold wrap_u32. rewrite <- N2Z.inj_add, Z.mod_small by lia.
         rewrite (wrap_i64_small (i + 1)) by (unfold is_i64, two63z; lia).
-        specialize (IH r fuel (i + 1) n rr base max (v * base + digit_val c)%N (buf ++ [Z.of_N c]) errs
+        specialize (IH r fuel (i + 1) n base max (v * base + digit_val c)%N (buf ++ [Z.of_N c]) errs
                        ltac:(lia) ltac:(lia) Hn Hb Hv2 ltac:(lia)).
         destruct (dig_run k base max (v * base + digit_val c) r) as [[p s'] e].
         destruct IH as (b & EE & E1 & E2). exists b, EE. rewrite E1. split; [|exact E2].
@@ -505,21 +505,21 @@ Proof.
     { exists true, []. rewrite !app_nil_r. split; reflexivity. }
     destruct (in_range 48 55 c).
     { rewrite <- zs_cons.
-      pose proof (esc_loop 3 (c :: r) (S (length (zs (c :: r))) + S (S (Z.to_nat (3 - 0)))) 0 3 (Z.of_N c) 8 255 0 buf errs
+      pose proof (esc_loop 3 (c :: r) (S (length (zs (c :: r))) + S (S (Z.to_nat (3 - 0)))) 0 3 8 255 0 buf errs
                     eq_refl ltac:(lia) ltac:(lia) ltac:(lia) ltac:(cbn; lia) ltac:(lia)) as H.
       exact H. }
     destruct (c =? 120)%N.
-    { pose proof (esc_loop 2 r (S (length (zs r)) + S (S (Z.to_nat (2 - 0)))) 0 2 (Z.of_N c) 16 255 0 (buf ++ [Z.of_N c]) errs
+    { pose proof (esc_loop 2 r (S (length (zs r)) + S (S (Z.to_nat (2 - 0)))) 0 2 16 255 0 (buf ++ [Z.of_N c]) errs
                     eq_refl ltac:(lia) ltac:(lia) ltac:(lia) ltac:(cbn; lia) ltac:(lia)) as H.
       destruct (dig_run 2 16 255 0 r) as [[p s'] e]. destruct H as (b & EE & E1 & E2).
       exists b, EE. split; [|exact E2]. etransitivity; [exact E1|]. rewrite <- app_assoc. reflexivity. }
     destruct (c =? 117)%N.
-    { pose proof (esc_loop 4 r (S (length (zs r)) + S (S (Z.to_nat (4 - 0)))) 0 4 (Z.of_N c) 16 max_rune 0 (buf ++ [Z.of_N c]) errs
+    { pose proof (esc_loop 4 r (S (length (zs r)) + S (S (Z.to_nat (4 - 0)))) 0 4 16 max_rune 0 (buf ++ [Z.of_N c]) errs
                     eq_refl ltac:(lia) ltac:(lia) ltac:(lia) ltac:(cbn; lia) ltac:(lia)) as H.
       destruct (dig_run 4 16 max_rune 0 r) as [[p s'] e]. destruct H as (b & EE & E1 & E2).
       exists b, EE. split; [|exact E2]. etransitivity; [exact E1|]. rewrite <- app_assoc. reflexivity. }
     destruct (c =? 85)%N.
-    { pose proof (esc_loop 8 r (S (length (zs r)) + S (S (Z.to_nat (8 - 0)))) 0 8 (Z.of_N c) 16 max_rune 0 (buf ++ [Z.of_N c]) errs
+    { pose proof (esc_loop 8 r (S (length (zs r)) + S (S (Z.to_nat (8 - 0)))) 0 8 16 max_rune 0 (buf ++ [Z.of_N c]) errs
                     eq_refl ltac:(lia) ltac:(lia) ltac:(lia) ltac:(cbn; lia) ltac:(lia)) as H.
       destruct (dig_run 8 16 max_rune 0 r) as [[p s'] e]. destruct H as (b & EE & E1 & E2).
       exists b, EE. split; [|exact E2]. etransitivity; [exact E1|]. rewrite <- app_assoc. reflexivity. }
